@@ -102,6 +102,24 @@ MUTANTS = {
     "elim-second-lowest": ("C02", "votekit/elections/election_types/ranking/stv.py",
                            "            lowest_fpv_cands = prev_state.remaining[-1]\n", "            lowest_fpv_cands = prev_state.remaining[-2] if len(prev_state.remaining) > 2 else prev_state.remaining[-1]\n",
                            "eliminates the second-lowest group when three or more groups remain"),
+    "rd-unweighted": ("C17", "votekit/elections/election_types/ranking/random_dictator.py",
+                      "        random_ballot = random.choices(ballots, weights=weights, k=1)[0]", "        random_ballot = random.choices(ballots, k=1)[0]", "RandomDictator ignores ballot weights"),
+    "brd-threshold": ("C17", "votekit/elections/election_types/ranking/boosted_random_dictator.py",
+                      "        elif u <= 1 / (len(remaining_cands) - 1):", "        elif u <= 1 / len(remaining_cands):", "BRD uses probability 1/c for the squares branch"),
+    "brd-no-square": ("C17", "votekit/elections/election_types/ranking/boosted_random_dictator.py",
+                      "            p = np.power(p, 2)\n", "            p = np.power(p, 1)\n", "BRD squares branch is proportional, not proportional-to-squares"),
+    "tiebreak-first-stays": ("C17", "votekit/utils.py",
+                             "            frozenset({c}) for c in random.sample(list(r_set), k=len(r_set))\n",
+                             "            frozenset({c}) for c in (lambda x: x[:1] + random.sample(x[1:], k=len(x) - 1))(sorted(r_set))\n",
+                             "random tiebreak always puts the alphabetically first candidate first"),
+    "csv-rank-cols-sorted": ("C18", "votekit/cvr_loaders.py",
+                             "        ranks = [df.columns[i] for i in rank_cols]\n", "        ranks = [df.columns[i] for i in sorted(rank_cols)]\n", "load_csv ignores the order of rank_cols"),
+    "csv-skip-dup-id-check": ("C18", "votekit/cvr_loaders.py",
+                              "    if id_col is not None and not df.iloc[:, id_col].is_unique:", "    if id_col is not None and len(df) > 1 and df.iloc[0, id_col] == df.iloc[1, id_col]:", "duplicate voter ids only detected in the first two rows"),
+    "csv-dropna-groups": ("C18", "votekit/cvr_loaders.py",
+                          "    grouped = df.groupby(ranks, dropna=False)", "    grouped = df.groupby(ranks)", "rows with blank cells are silently dropped"),
+    "scot-weight-int-division": ("C18", "votekit/cvr_loaders.py",
+                                 "        ballot_weight = Fraction(line[0])\n", "        ballot_weight = Fraction(line[0] if line[0] < 100 else 100)\n", "Scottish ballot multiplicities capped at 100"),
 }
 
 
